@@ -7,7 +7,7 @@ import typing
 
 from hypothesis import strategies as st
 
-from ..core import Info, Part, Ctx, Violation, HarnessError, require, guarded, crash_signature
+from ..core import pydsdl_frames, Info, Part, Ctx, Violation, HarnessError, require, guarded, crash_signature
 from ..gen import defs
 from ..gen.materialize import TextBuilder
 
@@ -132,6 +132,19 @@ def mutate(text: str, ops: typing.List[typing.Any]) -> str:
     return "".join(tokens)
 
 
+def _runaway(ex: BaseException) -> str:
+    """Which recursion ran away is the root cause: the chain of set operators that a long attribute list builds (one level per
+    attribute) - or the parser, the reader following references, ... (then the plain signature stays)."""
+    frames = pydsdl_frames(ex)
+    if frames and all("_bit_length_set/" in f for f in frames[-12:]):
+        return "@_bit_length_set/_symbolic (operator chain as deep as the attribute list is long)"
+    return ""
+
+
+def _short(files: typing.Dict[str, typing.Any]) -> str:
+    return "%s" % {k: (v if not isinstance(v, str) or len(v) < 400 else v[:200] + " ... " + v[-100:]) for k, v in files.items()}
+
+
 def _outcome(ctx: Ctx, files: typing.Dict[str, str], what: str, extra_roots: typing.Sequence[str] = ()) -> typing.Tuple[str, typing.Any]:
     """Writes the workspace, reads ns, classifies the outcome; raises Violation for anything but model / InvalidDefinitionError+path."""
     import pydsdl
@@ -159,7 +172,18 @@ def _outcome(ctx: Ctx, files: typing.Dict[str, str], what: str, extra_roots: typ
         root = os.path.join(d, ROOT)
         os.makedirs(root, exist_ok=True)  # a directory that does not exist is a documented OSError, outside this property
         try:
-            res = pydsdl.read_namespace(root, [os.path.join(d, r) for r in extra_roots])
+            # The library is called with the stack head-room of an ordinary program (the interpreter's default limit of 1000 frames,
+            # counted from here); the test library raises the limit while it runs a case, which would hide recursion that runs away
+            # for users.
+            import inspect
+            import sys
+
+            saved_limit = sys.getrecursionlimit()
+            sys.setrecursionlimit(len(inspect.stack(0)) + 1000)
+            try:
+                res = pydsdl.read_namespace(root, [os.path.join(d, r) for r in extra_roots])
+            finally:
+                sys.setrecursionlimit(saved_limit)
             return "model", len(res)
         except pydsdl.InvalidDefinitionError as ex:
             listing = {os.path.realpath(os.path.join(dp, fn)) for dp, _, fns in os.walk(d) for fn in fns} | {
@@ -170,11 +194,19 @@ def _outcome(ctx: Ctx, files: typing.Dict[str, str], what: str, extra_roots: typ
             require(os.path.realpath(str(p)) in listing, "error-path-outside-workspace", "a file of the workspace", str(p), "%r" % files)
             return "error", (type(ex).__name__, ex.line)
         except RecursionError as ex:
-            raise Violation("crash:RecursionError", "InvalidDefinitionError or a model", repr(ex)[:200], "%r" % files)
+            raise Violation("crash:RecursionError" + _runaway(ex), "InvalidDefinitionError or a model", repr(ex)[:200], _short(files))
         except MemoryError:
             raise
         except Exception as ex:  # pylint: disable=broad-except
             sig = crash_signature(ex)
+            inner_: typing.Any = ex
+            for _hop in range(8):
+                inner_ = getattr(inner_, "__cause__", None)
+                if inner_ is None:
+                    break
+                if isinstance(inner_, RecursionError) and _runaway(inner_):
+                    sig = "crash:RecursionError" + _runaway(inner_)  # the same root cause, met inside read() and wrapped
+                    break
             chain = [ex, getattr(ex, "__cause__", None), getattr(getattr(ex, "__cause__", None), "__cause__", None)]
             if any(c is not None and "Exceeds the limit (4300 digits)" in str(c) for c in chain) or "Exceeds%20the%20limit%20%284300%20digits%29" in str(ex):
                 sig = "crash:int-max-str-digits"  # one root cause, many call sites that format a huge integer
@@ -228,10 +260,13 @@ def check_targeted(case: typing.Any, ctx: Ctx) -> Info:
     sink = case["sink"] if isinstance(case["sink"], str) else SINKS[case["sink"] % len(SINKS)]
     line = sink.replace("{e}", expr)
     before = ["uint8 a", "Dep.1.0 d", "# comment", ""][: case["before"] % 5]
+    # long but flat: many attributes in one definition (nothing is nested; the text stays within a few KiB)
+    many = case.get("many_fields", 0)
+    before = ["%s m%d" % (["uint8", "bool", "uint8[<=2]", "float16", "uint3"][many % 5], i) for i in range(many)] + before
     lines = before + [line]
     if not line.startswith("@extent"):
         lines.append("@sealed")
-    text = sanitize("\n".join(lines) + ("\n" if case["newline"] else ""))
+    text = "\n".join(sanitize(x) for x in lines) + ("\n" if case["newline"] else "")
     files = {ROOT + "/Dep.1.0.dsdl": DEP_TEXT, ROOT + "/Svc.1.0.dsdl": SVC_TEXT}
     if case["as_dependency"]:
         files[ROOT + "/dep/Y.1.0.dsdl"] = text
@@ -369,7 +404,8 @@ def parts(ctx: Ctx) -> typing.List[Part]:
     extreme = st.tuples(st.sampled_from(["", "-"]), magnitude, tail).map(lambda t: t[0] + "(" + t[1] + ")" + t[2] if t[0] else t[1] + t[2])
     composed = st.tuples(st.integers(0, len(CORNER_BASES) - 1), st.lists(st.integers(0, len(CORNER_WRAPS) - 1), min_size=1, max_size=2)).map(lambda t: corner_expression(t[0], t[1]))
     targeted_cases = st.fixed_dictionaries(
-        {"expr": st.one_of(st.integers(0, len(TARGETED) - 1), st.integers(0, len(TARGETED) - 1), extreme, composed, composed), "sink": st.integers(0, len(SINKS) - 1), "before": st.integers(0, 4), "newline": st.booleans(), "as_dependency": st.booleans()}
+        {"expr": st.one_of(st.integers(0, len(TARGETED) - 1), st.integers(0, len(TARGETED) - 1), extreme, composed, composed), "sink": st.integers(0, len(SINKS) - 1), "before": st.integers(0, 4), "newline": st.booleans(), "as_dependency": st.booleans(),
+         "many_fields": st.sampled_from([0, 0, 0, 0, 0, 0, 40, 120, 181, 200, 260])}
     )
     twin = st.one_of(st.none(), st.none(), st.fixed_dictionaries({"dirs": st.lists(st.sampled_from(["sub", "x"]), max_size=1), "kind": st.integers(0, 2), "body": st.integers(0, 2)}))
     special = st.one_of(
